@@ -136,6 +136,14 @@ func vC22Model(tr *lib.Trace, r *rand.Rand, n int) {
 				if s := g.singletonJoin(); s != nil && g.valid(s) {
 					q = s
 				}
+			case 2:
+				if s := g.fixedRightJoin(); s != nil {
+					q = s
+				}
+			case 3:
+				if s := g.inListGroup(); s != nil {
+					q = s
+				}
 			case 1:
 				// a restriction on a (deep) key/index prefix of the widest table, alone or under
 				// one more operator
